@@ -131,14 +131,27 @@ Definition resp_ok := resp_ok_gen true.
    resource calls - is still compared for the rest of the history; with an output size the text's
    length decides whether pages fit, and the comparison stops (as agreeing) *)
 Definition taint_stops (c : config) : bool := negb (c_out c =? 0).
+(* A text that became the error prefix in a request whose Exec then FAILED is never rendered: Flush
+   refuses (nothing was executed) and the next request starts from a reset page (persisted: a new
+   engine; long-lived: the harness ends the session, or the first loop iteration resets the page).
+   Such a taint is without effect, so the taint is tracked per request and only counts when the
+   request's Exec succeeded (the LOADFAIL path: the run goes on to _catch and the page, with the
+   text, is rendered). *)
+Definition exec_failed (s : stat) : bool := match s with SErr _ _ => true | _ => false end.
+Definition untaint_v (v : vmst) : vmst := mkVm (v_st v) (v_ca v) (v_pg v) (v_w v) (v_log v) false.
+Definition untaint_e (e : engine) : engine := eset_v e (untaint_v (e_v e)).
+Definition untaint_p (p : pworld) : pworld := mkPw (pw_store p) (pw_w p) (pw_log p) false.
 Fixpoint corr_long (rs : rsrc) (c : config) (e : engine) (steps : list (bytes * eobs)) (k : N) : N :=
   match steps with
   | [] => 0
   | (input, o) :: steps' =>
     let lg0 := v_log (e_v e) in
-    let '(e', r) := request_long efuel rs c e input in
-    if (v_taint (e_v e') && taint_stops c) || is_fuel (r_exec r) || is_ffuel (r_flush r) then 0 else
-    if resp_ok_gen (negb (v_taint (e_v e'))) r (Some (snap_of (v_st (e_v e')) (v_ca (e_v e')))) (new_events lg0 (v_log (e_v e'))) o
+    let was := v_taint (e_v e) in
+    let '(e', r) := request_long efuel rs c (untaint_e e) input in
+    let tn := was || (v_taint (e_v e') && negb (exec_failed (r_exec r))) in
+    let e' := if tn then e' else untaint_e e' in
+    if (tn && taint_stops c) || is_fuel (r_exec r) || is_ffuel (r_flush r) then 0 else
+    if resp_ok_gen (negb tn) r (Some (snap_of (v_st (e_v e')) (v_ca (e_v e')))) (new_events lg0 (v_log (e_v e'))) o
     then corr_long rs c e' steps' (k + 1) else k
   end.
 Fixpoint corr_pers (rs : rsrc) (c : config) (p : pworld) (steps : list (bytes * eobs)) (k : N) : N :=
@@ -146,9 +159,11 @@ Fixpoint corr_pers (rs : rsrc) (c : config) (p : pworld) (steps : list (bytes * 
   | [] => 0
   | (input, o) :: steps' =>
     let lg0 := pw_log p in
-    let '(p', r) := request_persisted efuel rs c p input in
-    if (pw_taint p' && taint_stops c) || is_fuel (r_exec r) || is_ffuel (r_flush r) then 0 else
-    if resp_ok_gen (negb (pw_taint p')) r (pw_store p') (new_events lg0 (pw_log p')) o
+    let '(p', r) := request_persisted efuel rs c (untaint_p p) input in
+    (* every request has an engine of its own: a taint cannot outlive its request *)
+    let tn := pw_taint p' && negb (exec_failed (r_exec r)) in
+    if (tn && taint_stops c) || is_fuel (r_exec r) || is_ffuel (r_flush r) then 0 else
+    if resp_ok_gen (negb tn) r (pw_store p') (new_events lg0 (pw_log p')) o
     then corr_pers rs c p' steps' (k + 1) else k
   end.
 
